@@ -573,7 +573,7 @@ class _StubRM(object):
 
 def gen_cause(rng):
 
-    cause = rng.choice(['timeout', 'cancel', 'none'])
+    cause = rng.choice(['timeout', 'cancel', 'none', 'terminate'])
     noise = [rng.choice(['cancel_other', 'early_lifetime', 'heartbeat',
                          'unknown_cmd', 'cancel_other_list', 'cancel_nobody',
                          'cancel_other_str'])
@@ -585,7 +585,9 @@ def gen_cause(rng):
             'late_by': rng.choice([0, 1, 59, 600]),
             'uids_form': rng.choice(['only', 'first', 'last']),
             'outputs': {ext: rng.choice(kinds)
-                        for ext in ('out', 'err', 'log')}}
+                        for ext in ('out', 'err', 'log')},
+            'threaded': cause != 'none' and rng.random() < 0.4,
+            'seed': rng.randint(0, 2 ** 30)}
 
 
 def run_cause(case, res, workdir):
@@ -671,8 +673,37 @@ def run_cause(case, res, workdir):
                                                            a._final_cause), ctx)
                 return
 
+        # the work loop of the agent runs finalize() as soon as `_term` is
+        # set - in some histories on its own thread, while the thread which
+        # delivers the cause is still inside stop()
+        fin, th, pert = dict(), None, None
+        if case.get('threaded'):
+            import time as _time
+            from ..popsim import Perturb
+            import radical.pilot.utils.component as m_comp
+
+            def loop():
+                while not a._term.is_set():
+                    _time.sleep(0.0001)
+                try:
+                    a.finalize()
+                except Exception as e:
+                    fin['exc'] = e
+            pert = Perturb(case.get('seed', 0), 0.5,
+                           funcs=[m_agent0.Agent_0.stop,
+                                  m_comp.BaseComponent.stop])
+            th = mt.Thread(target=loop, daemon=True, name='agent-work-loop')
+            th.start()
+            res.count('threaded_cause_scenarios')
+
         # the cause
-        if case['cause'] == 'timeout':
+        if case['cause'] == 'terminate':
+            # what session.close() publishes: handled by the component base
+            a._rpc_reqs = dict()
+            a._control_cb(rpc.CONTROL_PUBSUB, {'cmd': 'terminate',
+                                               'arg': None})
+            expected = rps.CANCELED
+        elif case['cause'] == 'timeout':
             clk.now = a._starttime + case['runtime'] * 60 + case['late_by']
             a._check_lifetime()
             expected = rps.DONE
@@ -687,6 +718,8 @@ def run_cause(case, res, workdir):
             a._term.set()
             expected = rps.FAILED
 
+        if pert:
+            pert.stop()
         if not a._term.is_set():
             res.violation('cause-did-not-stop-agent/%s' % case['cause'],
                           'term not set', ctx)
@@ -694,7 +727,15 @@ def run_cause(case, res, workdir):
 
         # what the work loop does once `_term` is set
         try:
-            a.finalize()
+            if th:
+                th.join(timeout=20)
+                if th.is_alive():
+                    res.inconc('agent work loop thread still busy after 20 s')
+                    return
+                if 'exc' in fin:
+                    raise fin['exc']
+            else:
+                a.finalize()
         except Exception as e:
             # the agent's loop would log this and end: no reason is ever
             # reported for the end of the pilot
